@@ -391,7 +391,7 @@ class ShardResult:
         for rw in res.get('rw', ()):
             key = '%s:%s' % (rw[0], rw[1])
             self.reach[key] = self.reach.get(key, 0) + 1
-            if rw[3] >= rw[2]:
+            if rw[3] >= rw[2] and rw[0] != 'variable':
                 self.count('h2_nondecreasing_rewrites')
 
     def pack(self):
@@ -537,12 +537,13 @@ def run_check(prop, module_name, tier, seed, spec):
             fresh.append(v)
 
     distinct = total.distinct.count()
-    print('%s %s seed=%d: %d driver ops, %d cases judged, %d distinct non-trivial, max loop steps per op %d, %.1f s'
-          % (prop, tier, seed, total.evaluations, total.cases, distinct, total.max_steps, wall))
+    out_lines = []
+    out_lines.append('%s %s seed=%d: %d driver ops, %d cases judged, %d distinct non-trivial, max loop steps per op %d, %.1f s'
+                     % (prop, tier, seed, total.evaluations, total.cases, distinct, total.max_steps, wall))
     for k in sorted(total.counters):
-        print('  %-44s %d' % (k, total.counters[k]))
+        out_lines.append('  %-44s %d' % (k, total.counters[k]))
     for sig, n in sorted(known_hits.items()):
-        print('KNOWN-FINDING: property=%s sig=%s %s (seen %d times in this run)' % (prop, sig, findings[(prop, sig)], n))
+        out_lines.append('KNOWN-FINDING: property=%s sig=%s %s (seen %d times in this run)' % (prop, sig, findings[(prop, sig)], n))
 
     status = 0
     replay_paths = []
@@ -552,9 +553,9 @@ def run_check(prop, module_name, tier, seed, spec):
         replay_paths.append(path)
         if v['sig'] not in seen_sig:
             seen_sig.add(v['sig'])
-            print('VIOLATION property=%s replay=%s' % (prop, path))
-            print('  signature: %s (%d occurrences)' % (v['sig'], v['n']))
-            print('  %s' % (v['what'][:600],))
+            out_lines.append('VIOLATION property=%s replay=%s' % (prop, path))
+            out_lines.append('  signature: %s (%d occurrences)' % (v['sig'], v['n']))
+            out_lines.append('  %s' % (v['what'][:600],))
         status = 1
 
     reason = None
@@ -563,8 +564,10 @@ def run_check(prop, module_name, tier, seed, spec):
     elif distinct < spec.get('min_nontrivial', 2) and status == 0:
         reason = 'only %d distinct non-trivial cases observed (minimum %d)' % (distinct, spec.get('min_nontrivial', 2))
     if reason and status == 0:
-        print('INCONCLUSIVE property=%s reason=%s' % (prop, reason.replace('\n', ' | ')[:1500]))
+        out_lines.append('INCONCLUSIVE property=%s reason=%s' % (prop, reason.replace('\n', ' | ')[:1500]))
         status = 2
+    elif reason:
+        out_lines.append('NOTE: part of the run was inconclusive: %s' % (reason.replace('\n', ' | ')[:1500],))
 
     os.makedirs(EVIDENCE_DIR, exist_ok=True)
     coverage = {
@@ -601,4 +604,10 @@ def run_check(prop, module_name, tier, seed, spec):
     }
     with open(os.path.join(EVIDENCE_DIR, prop + '.json'), 'w', encoding='utf-8') as f:
         json.dump(ev, f, ensure_ascii=False, indent=1, default=str)
+    try:
+        for line in out_lines:
+            print(line)
+        sys.stdout.flush()
+    except BrokenPipeError:
+        pass
     return status
